@@ -115,6 +115,15 @@ func (n *JoinNode) Delete(src int, d edge.DeleteGroupMessage) error {
 }
 
 func (n *JoinNode) Finish() error {
+	// The specific points that still wait for their match will not get one anymore,
+	// send them alone so that an outer join emits them too.
+	for _, buf := range n.specificGroupsBuffer {
+		l := buf.Len
+		for i := 0; i < l; i++ {
+			n.sendSpecificPoint(buf.Peek(i))
+		}
+		buf.Dequeue(l)
+	}
 	// No more points are coming signal all groups to finish up.
 	for _, group := range n.groups {
 		if err := group.Finish(); err != nil {
